@@ -1,12 +1,12 @@
 (* C11 — property theorems only. Each is closed by `exact` of a lemma proved in Proofs/NsProofs.v,
    or by kernel evaluation of a closed witness. *)
 From JV Require Import Lib.Base Model.Ns Model.NsRun Model.NsGuard Spec.NestedDict Spec.NestedDictRun
-  Gen.C11Clash Proofs.NsProofs.
+  Gen.C11Clash Model.C11NsFixed Corr.C11Judge Proofs.NsProofs Proofs.C11MoreProofs Proofs.C11FixedProofs.
 
 (* THE REFINEMENT. For ANY clash set and ANY history (no bound on its length, on the depth of keys
    or on the size of values) of the operations
        ns[k]=v, setattr(ns,k,v), ns[k], ns.get(k,d), k in ns, del ns[k], ns.pop(k,d),
-       ns.update(v,k,only_unset) for a non-Namespace v, ns.clone(), items/keys/values(branches)
+       ns.update(v,k,only_unset) for a non-Namespace v, ns.clone(), items/keys/values(branches), ns.as_dict()
    starting from the empty Namespace, with
      - key segments that do not start with U+200B (wf_key; keys the code rejects — a space, an empty
        segment — are INCLUDED: model and spec must both fail and leave the state alone),
@@ -79,6 +79,24 @@ Theorem dotted_eq_stepwise :
 Proof. exact dotted_eq_stepwise_proof. Qed.
 Print Assumptions dotted_eq_stepwise.
 
+(* the same for keys of ANY depth: reading s1.s2.....sn as one dotted string is reading ns[s1][s2]...[sn] step by
+   step, whenever the segments are names (no dot, no space, not empty) and the path does not pass through a
+   dict-valued leaf (there the two differ on the pinned code: the known finding) *)
+Theorem stepwise_eq_dotted :
+  forall clash a rest root,
+    seg_ok a = true -> forallb seg_ok rest = true ->
+    meets_dict clash (join_segs a rest) root = false ->
+    ns_get_steps clash (join_segs a rest) root = ns_getitem clash (join_segs a rest) root.
+Proof. exact stepwise_eq_dotted_proof. Qed.
+Print Assumptions stepwise_eq_dotted.
+
+(* as_dict of ANY stored tree (no well-formedness, no guard) is the nested dictionary itself, Namespaces held in
+   list / dict values included *)
+Theorem as_dict_agrees :
+  forall root, unmark_val (ns_as_dict root) = spec_as_dict (abs_d root).
+Proof. exact as_dict_agrees_proof. Qed.
+Print Assumptions as_dict_agrees.
+
 (* names that coincide with Namespace's own attributes are stored and returned like any other:
    the user-visible outputs and dictionaries do not depend on the clash set at all *)
 Theorem clash_names_transparent :
@@ -114,7 +132,7 @@ Definition example_history : list op :=
     OGet s_a_items; OContains s_a_b_items; OGetD s_b (VInt 9);
     OUpdV (VStr s_b) (Some s_a_b_items) true;
     OSet s_bad (VInt 0);                                 (* rejected key: both fail *)
-    OItems true; OPop s_a_items (VInt 9); ODel s_a; OGet s_a; OClone ].
+    OItems true; OAsDict; OPop s_a_items (VInt 9); ODel s_a; OGet s_a; OClone ].
 
 Example hypotheses_satisfiable : hist_class clash_names example_history = 0%N.
 Proof. vm_compute. reflexivity. Qed.
@@ -128,8 +146,19 @@ Example example_is_nontrivial :
                (s_a_b_items, VStr s_b);
                (s_items, VNs [(s_items, VList [VInt 3])]);
                (s_items ++ DOT :: s_items, VList [VInt 3]) ];
+    OutVal (VDict [ (s_a, VDict [(s_items, VInt 2); (s_b, VDict [(s_items, VStr s_b)])]);
+                    (s_items, VDict [(s_items, VList [VInt 3])]) ]);
     OutVal (VInt 2); OutUnit; OutFail; OutBool true ].
 Proof. vm_compute. reflexivity. Qed.
+
+(* the hypotheses of stepwise_eq_dotted hold for a three-segment key with a clash name that reads a value *)
+Example stepwise_hypotheses_satisfiable :
+  let root := [(s_a, VNs [(s_b, VNs [(ZW :: s_items, VInt 5)])])] in
+  seg_ok s_a = true /\ forallb seg_ok [s_b; s_items] = true /\
+  join_segs s_a [s_b; s_items] = s_a_b_items /\
+  meets_dict clash_names s_a_b_items root = false /\
+  ns_get_steps clash_names s_a_b_items root = Ok (VInt 5).
+Proof. vm_compute. repeat split; reflexivity. Qed.
 
 (* ---- the known finding: outside the guard the refinement FAILS --------------------------- *)
 (* ns['a'] = {'b': 1}; ns['a.b']  — the nested dictionary answers 1, the Namespace raises *)
@@ -145,3 +174,23 @@ Proof.
   vm_compute in H3. discriminate H3.
 Qed.
 Print Assumptions path_through_dict_refuted.
+
+(* ---- the repaired code (fixes/C11-path-through-dict.patch, Model/C11NsFixed.v) ------------------------------ *)
+(* On histories THROUGH dict-valued leaves the model of the patched code answers exactly as the nested dictionary:
+   kernel-evaluated finite product — every history of length <= 2 over the 73 operations fx_ops (set of dicts /
+   namespaces holding dicts / scalars, get, contains, del, pop, get-default, step-by-step get, update(only_unset)
+   on keys of depth 1-3 with clash names, setattr, items, as_dict, Namespace(dict), update(namespace)) and every
+   history of length 3 that starts by storing a dict (fx_firsts). fx_ok compares outputs and whole states. *)
+Theorem fixed_refines_through_dicts :
+  (forall a, In a fx_ops -> fx_ok [a] = true) /\
+  (forall a b, In a fx_ops -> In b fx_ops -> fx_ok [a; b] = true) /\
+  (forall a b c, In a fx_firsts -> In b fx_ops -> In c fx_ops -> fx_ok [a; b; c] = true).
+Proof. exact fixed_refines_through_dicts_proof. Qed.
+Print Assumptions fixed_refines_through_dicts.
+
+(* the witness of path_through_dict_refuted on the patched model: ns['a']={'b':1}; ns['a.b'] reads 1 *)
+Example fixed_repairs_witness :
+  map fst (run_fixed clash_names [] [OSet s_a (VDict [(s_b, VInt 1)]); OGet (s_a ++ DOT :: s_b)])
+  = [OutUnit; OutVal (VInt 1)] /\
+  fx_ok [OSet s_a (VDict [(s_b, VInt 1)]); OGet (s_a ++ DOT :: s_b)] = true.
+Proof. vm_compute. split; reflexivity. Qed.
